@@ -383,7 +383,19 @@ fn long_lived_case(c: &Case, lo: &mut LongLived, st: &mut Stats) -> Result<(), F
                     _ => other.psug = false,
                 }
                 lo.warm.update(other, &lo.sb).map_err(pf)?;
-                lo.warm.type_text(&target).map_err(pf)?;
+                // ... where it must show what a brand-new context with that option value shows
+                let fresh_other = Ctx::new(other, &lo.sb).map_err(pf)?;
+                for ch in target.chars() {
+                    let a = lo.warm.ch(ch, 0).map_err(pf)?;
+                    let b = fresh_other.ch(ch, 0).map_err(pf)?;
+                    if a != b {
+                        return Err(fail(
+                            "history-dependent-suggestion-long-lived-context",
+                            format!("text {target:?} at {ch:?} under {} (reached by update-engine from {}, user entry {key:?} in force): long-lived context shows {} but a brand-new context shows {}", other.letters(), lo.opts.letters(), a.short(), b.short()),
+                            c,
+                        ));
+                    }
+                }
                 lo.warm.finish().map_err(pf)?;
                 lo.warm.update(lo.opts, &lo.sb).map_err(pf)?;
                 lo.warm.type_text(&target).map_err(pf)?;
